@@ -109,7 +109,7 @@ theorem Changed.evolves {bp : NodeId → Prop} {s s' : Storage} {d : Dep} (he : 
 /-- a stored node without dependencies is a constant: it is correct under any sources -/
 theorem const_of_empty_deps {P : Prog} {s : Storage} {q : NodeId} {rq : Rev} (h : RevOk P s q rq) (hd : rq.deps = []) :
     ∃ R, BigN P s.srcs s.maps q rq.val R := by
-  obtain ⟨σx, mx, R, hb, hdf, _⟩ := h.ghost
+  obtain ⟨σx, mx, R, hb, hdf, _, _⟩ := h.ghost
   have hR : R = [] := by
     cases R with
     | nil => rfl
